@@ -4,7 +4,7 @@ use ntex_bytes::{Buf, BufMut, BytePages, ByteString, Bytes};
 
 use super::ack_props;
 use crate::error::{DecodeError, EncodeError};
-use crate::types::QoS;
+use crate::types::{MAX_PACKET_SIZE, QoS};
 use crate::utils::{self, Decode, Encode, write_variable_length};
 use crate::v5::codec::{UserProperties, UserProperty, encode, property_type as pt};
 
@@ -208,6 +208,10 @@ impl encode::EncodeLtd for Subscribe {
         utils::write_variable_length(prop_len, buf);
 
         if let Some(id) = self.id {
+            // subscription identifier is a variable byte integer
+            if id.get() > MAX_PACKET_SIZE {
+                return Err(EncodeError::MalformedPacket);
+            }
             buf.put_u8(pt::SUB_ID);
             write_variable_length(id.get(), buf);
         }
